@@ -12,7 +12,7 @@ From Coq Require Import String.
 From Coq Require Import List ZArith NArith Bool Lia Arith.
 From Tele Require Import Lib.Bytes Lib.FS Model.Span Model.Uploader
   Proofs.FSFacts Proofs.UploaderBase Proofs.UploaderNames Proofs.UploaderFiles Proofs.UploaderData
-  Proofs.UploaderEver Proofs.UploaderSeq Proofs.UploaderIdem.
+  Proofs.UploaderEver Proofs.UploaderSeq Proofs.UploaderIdem Proofs.UploaderNoDup.
 Import ListNotations.
 Open Scope nat_scope.
 
@@ -86,6 +86,21 @@ Theorem C07_concurrent_single_report_partial : forall st ia n,
   exists c', d_find (f_local (s_fs (step st ia))) n = Some (id, c') /\ (c <> CRep None -> c' = c).
 Proof. exact local_report_stable. Qed.
 Print Assumptions C07_concurrent_single_report_partial.
+
+(* ---- never counts a file twice (any number of uploaders, any
+        interleaving, from any directory with distinct names): every report
+        body written by any step (W.json or local.W.json) is the report of
+        the writer's current week, folds in each count file at most once, and
+        only count files of that week that ended before the writer's start
+        time (as parsed from the initial directory) ---- *)
+Theorem C07_no_file_twice : forall f cfgs st i a t fd c t',
+  fs_wf f -> NoDup (dnames (f_local f)) -> reach_from (init_state f cfgs) st ->
+  nth_error (s_ths st) i = Some t -> decide_all (s_fs st) a t = (EWriteId fd c, t') ->
+  exists r, c = CRep (Some r) /\ r_week r = t_week t /\ r_by r = t_id t /\
+            NoDup (map fst (r_files r)) /\
+            Forall (entry_ok (f_local f) (t_cfg t) (t_week t)) (r_files r).
+Proof. exact report_sound. Qed.
+Print Assumptions C07_no_file_twice.
 
 (* every change any step can make to any file of local/ *)
 Theorem C07_file_changes : forall st i a n, reach st ->
